@@ -533,4 +533,332 @@ theorem sim7 : Sim proto7 core Conn7.cfg where
   call := fun now draws e c r y hr h hh1 => call7 now draws e c r y hr h hh1
   recv := fun now draws e peer dg alt r hdg hr h h2 => recv7 now draws e peer dg alt r hdg hr h h2
 
+/-! ## the handshake clause -/
+
+/-- online or disconnected: the connection never reports `Ready` (again) -/
+def late (c : Conn) : Bool :=
+  match c.state with
+  | .online _ _ _ => true
+  | .disconnected => true
+  | _ => false
+
+theorem tickAction_hs {env : Env} {c c' : Conn} {out : Out} (ht : tickAction env c = .ok (c', out)) :
+    out.events = [] ∧ late c' = late c := by
+  obtain ⟨st, snd⟩ := c
+  cases st <;> simp only [tickAction] at ht
+  case unconnected => injection ht with ht; injection ht with h1 h2; subst h1 h2; exact ⟨rfl, rfl⟩
+  case disconnected => injection ht with ht; injection ht with h1 h2; subst h1 h2; exact ⟨rfl, rfl⟩
+  case pendingConnect own => injection ht with ht; injection ht with h1 h2; subst h1 h2; exact ⟨rfl, rfl⟩
+  case token own =>
+    split at ht
+    · cases ht
+    · injection ht with ht; injection ht with h1 h2; subst h1 h2; exact ⟨rfl, rfl⟩
+  case connecting own their =>
+    split at ht
+    · cases ht
+    · injection ht with ht; injection ht with h1 h2; subst h1 h2; exact ⟨rfl, rfl⟩
+  case pending own their =>
+    split at ht
+    · cases ht
+    · injection ht with ht; injection ht with h1 h2; subst h1 h2; exact ⟨rfl, rfl⟩
+  case online own their o =>
+    split at ht
+    · split at ht
+      · cases ht
+      · injection ht with ht; injection ht with h1 h2; subst h1 h2; exact ⟨rfl, rfl⟩
+    · split at ht
+      · cases ht
+      · injection ht with ht; injection ht with h1 h2; subst h1 h2; exact ⟨rfl, rfl⟩
+
+theorem hs_call7 (now : Nat) (draws : List Nat) (c : Conn) (cl : Call) (r : Ret Conn Packet)
+    (hr : P7.call now draws c cl = .ok r) : readyCount r.events = 0 ∧ (late c = true → late r.conn = true) := by
+  cases cl with
+  | connect =>
+    simp only [P7.call] at hr
+    split at hr
+    · cases hr
+    · rename_i c1 out hcon
+      injection hr with hr; subst hr
+      unfold connect at hcon
+      cases hst : c.state with
+      | unconnected =>
+        simp only [hst] at hcon
+        split at hcon
+        · cases hcon
+        · obtain ⟨a, b⟩ := tickAction_hs hcon
+          simp only [a, readyCount, true_and]
+          intro hl; simp [late, hst] at hl
+      | _ => simp [hst] at hcon
+  | send d v =>
+    simp only [P7.call] at hr
+    split at hr
+    · cases hr
+    · rename_i c1 res out hsend
+      injection hr with hr; subst hr
+      unfold Conn7.send at hsend
+      cases hst : c.state with
+      | online own their o =>
+        simp only [hst] at hsend
+        split at hsend
+        · cases hsend
+        · split at hsend
+          · cases hsend
+          · injection hsend with hsend; injection hsend with e1 e2; injection e2 with e2 e3
+            subst e1 e2 e3
+            exact ⟨rfl, fun _ => rfl⟩
+      | _ => simp [hst] at hsend
+  | sendConnless d =>
+    simp only [P7.call] at hr
+    split at hr
+    · cases hr
+    · rename_i c1 res out hsend
+      injection hr with hr; subst hr
+      unfold Conn7.sendConnless at hsend
+      cases hst : c.state with
+      | online own their o =>
+        simp only [hst] at hsend
+        split at hsend
+        · injection hsend with hsend; injection hsend with e1 e2; injection e2 with e2 e3
+          subst e1 e2 e3
+          exact ⟨rfl, fun _ => rfl⟩
+        · split at hsend
+          · cases hsend
+          · injection hsend with hsend; injection hsend with e1 e2; injection e2 with e2 e3
+            subst e1 e2 e3
+            exact ⟨rfl, fun _ => rfl⟩
+      | _ => simp [hst] at hsend
+  | flush =>
+    simp only [P7.call] at hr
+    split at hr
+    · cases hr
+    · rename_i c1 out hfl
+      injection hr with hr; subst hr
+      unfold Conn7.flush at hfl
+      cases hst : c.state with
+      | online own their o =>
+        simp only [hst] at hfl
+        split at hfl
+        · cases hfl
+        · injection hfl with hfl; injection hfl with e1 e2; subst e1 e2
+          exact ⟨rfl, fun _ => rfl⟩
+      | _ => simp [hst] at hfl
+  | tick =>
+    simp only [P7.call] at hr
+    split at hr
+    · cases hr
+    · rename_i c1 out htick
+      injection hr with hr; subst hr
+      unfold Conn7.tick at htick
+      have hidle : ∀ {snd : Timeout}, tickAction ⟨now, draws⟩ ⟨c.state, snd⟩ = .ok (c1, out) →
+          readyCount out.events = 0 ∧ (late c = true → late c1 = true) := by
+        intro snd ht
+        obtain ⟨a, b⟩ := tickAction_hs ht
+        rw [a, b]
+        exact ⟨rfl, fun hl => hl⟩
+      cases hst : c.state with
+      | online own their o =>
+        simp only [hst] at htick
+        split at htick
+        · unfold resendConn at htick
+          split at htick
+          · cases htick
+          · split at htick
+            · cases htick
+            · injection htick with htick; injection htick with e1 e2; subst e1 e2
+              exact ⟨rfl, fun _ => rfl⟩
+        · split at htick
+          · rw [← hst] at htick; exact hidle htick
+          · injection htick with htick; injection htick with e1 e2; subst e1 e2
+            exact ⟨rfl, fun hl => hl⟩
+      | _ =>
+        simp only [hst, Bool.false_eq_true, if_false] at htick
+        split at htick
+        · rw [← hst] at htick; exact hidle htick
+        · injection htick with htick; injection htick with e1 e2; subst e1 e2
+          exact ⟨rfl, fun hl => hl⟩
+  | disconnect reason =>
+    simp only [P7.call] at hr
+    split at hr
+    · cases hr
+    · rename_i c1 out hdis
+      injection hr with hr; subst hr
+      unfold Conn7.disconnect at hdis
+      split at hdis
+      · cases hdis
+      · split at hdis
+        · cases hdis
+        · split at hdis
+          · cases hdis
+          · injection hdis with hdis; injection hdis with e1 e2; subst e1 e2
+            exact ⟨rfl, fun _ => rfl⟩
+
+/-- `feed` after the token check: `Ready` is reported only for the peer's `Accept`, by a connection
+that is `Connecting` and goes online -/
+theorem feedBody_hs {env : Env} {c c1 : Conn} {q : Packet} {out : Out}
+    (hf : feedBody env c q = .ok (c1, out)) :
+    (late c = true → late c1 = true ∧ readyCount out.events = 0) ∧
+    (readyCount out.events = 0 ∨ (readyCount out.events = 1 ∧ late c1 = true ∧ isAccept q = true)) := by
+  have hnoop : ∀ (evs : List Event), readyCount evs = 0 →
+      feedBody env c q = .ok (c, { events := evs }) →
+      (late c = true → late c1 = true ∧ readyCount out.events = 0) ∧
+      (readyCount out.events = 0 ∨ (readyCount out.events = 1 ∧ late c1 = true ∧ isAccept q = true)) := by
+    intro evs hevs hq
+    rw [hq] at hf
+    injection hf with hf; injection hf with e1 e2; subst e1 e2
+    exact ⟨fun hl => ⟨hl, hevs⟩, Or.inl hevs⟩
+  have htick : ∀ {c0 : Conn}, late c = false → tickAction env c0 = .ok (c1, out) →
+      (late c = true → late c1 = true ∧ readyCount out.events = 0) ∧
+      (readyCount out.events = 0 ∨ (readyCount out.events = 1 ∧ late c1 = true ∧ isAccept q = true)) := by
+    intro c0 hl ht
+    obtain ⟨a, _⟩ := tickAction_hs ht
+    rw [a]
+    exact ⟨fun hl' => (by rw [hl] at hl'; cases hl'), Or.inl rfl⟩
+  cases q with
+  | connless a b d => exact hnoop [] rfl (by simp [feedBody])
+  | chunks ack tk rr n cs =>
+    have hrecv : ∀ (own their : Nat) (o : Online),
+        (match o.receive Conn7.cfg env.now c.send rr cs with
+          | .error e => .error e
+          | .ok (o1, send1, fl, evs) =>
+            match emit (fl.map (ofFlushed their)) with
+            | .error e => .error e
+            | .ok ps => .ok (⟨.online own their o1, send1⟩, { sent := ps, events := evs })) = Except.ok (c1, out) →
+        (late c = true → late c1 = true ∧ readyCount out.events = 0) ∧
+        (readyCount out.events = 0 ∨ (readyCount out.events = 1 ∧ late c1 = true ∧
+          isAccept (Packet.chunks ack tk rr n cs) = true)) := by
+      intro own their o hk
+      split at hk
+      · cases hk
+      · rename_i o1 send1 fl evs hrc
+        split at hk
+        · cases hk
+        · injection hk with hk; injection hk with e1 e2; subst e1 e2
+          have := readyCount_receive hrc
+          exact ⟨fun _ => ⟨rfl, this⟩, Or.inl this⟩
+    cases hst : c.state with
+    | online own their o => simp only [feedBody, hst] at hf; exact hrecv own their o hf
+    | pending own their => simp only [feedBody, hst] at hf; exact hrecv own their .new hf
+    | unconnected => exact hnoop [] rfl (by simp [feedBody, hst])
+    | token own => exact hnoop [] rfl (by simp [feedBody, hst])
+    | pendingConnect own => exact hnoop [] rfl (by simp [feedBody, hst])
+    | connecting own their => exact hnoop [] rfl (by simp [feedBody, hst])
+    | disconnected => exact hnoop [] rfl (by simp [feedBody, hst])
+  | control ack tk ctl =>
+    cases ctl with
+    | keepAlive => exact hnoop [] rfl (by simp [feedBody])
+    | close reason =>
+      simp only [feedBody] at hf
+      injection hf with hf; injection hf with e1 e2; subst e1 e2
+      exact ⟨fun _ => ⟨rfl, rfl⟩, Or.inl rfl⟩
+    | accept =>
+      cases hst : c.state with
+      | connecting own their =>
+        simp only [feedBody, hst] at hf
+        injection hf with hf; injection hf with e1 e2; subst e1 e2
+        exact ⟨fun hl => by simp [late, hst] at hl, Or.inr ⟨rfl, rfl, rfl⟩⟩
+      | online own their o => exact hnoop [] rfl (by simp [feedBody, hst])
+      | pending own their => exact hnoop [] rfl (by simp [feedBody, hst])
+      | unconnected => exact hnoop [] rfl (by simp [feedBody, hst])
+      | token own => exact hnoop [] rfl (by simp [feedBody, hst])
+      | pendingConnect own => exact hnoop [] rfl (by simp [feedBody, hst])
+      | disconnected => exact hnoop [] rfl (by simp [feedBody, hst])
+    | connect their =>
+      cases hst : c.state with
+      | pendingConnect own =>
+        simp only [feedBody, hst] at hf
+        exact htick (by simp [late, hst]) hf
+      | online own their o => exact hnoop [] rfl (by simp [feedBody, hst])
+      | pending own their => exact hnoop [] rfl (by simp [feedBody, hst])
+      | unconnected => exact hnoop [] rfl (by simp [feedBody, hst])
+      | token own => exact hnoop [] rfl (by simp [feedBody, hst])
+      | connecting own their => exact hnoop [] rfl (by simp [feedBody, hst])
+      | disconnected => exact hnoop [] rfl (by simp [feedBody, hst])
+    | token their =>
+      cases hst : c.state with
+      | unconnected =>
+        cases htk : tokenRandom env.draws with
+        | none => simp [feedBody, hst, htk] at hf
+        | some t0 =>
+          simp only [feedBody, hst, htk] at hf
+          split at hf
+          · cases hf
+          · injection hf with hf; injection hf with e1 e2; subst e1 e2
+            exact ⟨fun hl => by simp [late, hst] at hl, Or.inl rfl⟩
+      | pendingConnect own =>
+        simp only [feedBody, hst] at hf
+        split at hf
+        · cases hf
+        · injection hf with hf; injection hf with e1 e2; subst e1 e2
+          exact ⟨fun hl => by simp [late, hst] at hl, Or.inl rfl⟩
+      | token own =>
+        simp only [feedBody, hst] at hf
+        exact htick (by simp [late, hst]) hf
+      | online own their o => exact hnoop [] rfl (by simp [feedBody, hst])
+      | pending own their => exact hnoop [] rfl (by simp [feedBody, hst])
+      | connecting own their => exact hnoop [] rfl (by simp [feedBody, hst])
+      | disconnected => exact hnoop [] rfl (by simp [feedBody, hst])
+
+theorem hs_recv7 (now : Nat) (draws : List Nat) (c : Conn) (p : Packet) (alt : Unit) (r : Ret Conn Packet)
+    (hr : P7.recv now draws c p alt = .ok r) :
+    (late c = true → late r.conn = true ∧ readyCount r.events = 0) ∧
+    (readyCount r.events = 0 ∨ (readyCount r.events = 1 ∧ late r.conn = true ∧ isAccept p = true)) := by
+  unfold P7.recv at hr
+  split at hr
+  · cases hr
+  · rename_i c1 out hf
+    injection hr with hr; subst hr
+    simp only
+    have hquiet : ∀ (o : Out), readyCount o.events = 0 → (Except.ok (c, o) : Res) = Except.ok (c1, out) →
+        (late c = true → late c1 = true ∧ readyCount out.events = 0) ∧
+        (readyCount out.events = 0 ∨ (readyCount out.events = 1 ∧ late c1 = true ∧ isAccept p = true)) := by
+      intro o ho hk
+      injection hk with hk; injection hk with e1 e2; subst e1 e2
+      exact ⟨fun hl => ⟨hl, ho⟩, Or.inl ho⟩
+    have hbody : ∀ (ack : Nat),
+        (match c.state with
+          | .online own their o =>
+            match o.feedAck ack with
+            | .error e => .error e
+            | .ok o1 => feedBody ⟨now, draws⟩ { c with state := .online own their o1 } p
+          | _ => feedBody ⟨now, draws⟩ c p) = Except.ok (c1, out) →
+        (late c = true → late c1 = true ∧ readyCount out.events = 0) ∧
+        (readyCount out.events = 0 ∨ (readyCount out.events = 1 ∧ late c1 = true ∧ isAccept p = true)) := by
+      intro ack hk
+      cases hst : c.state with
+      | online own their o =>
+        simp only [hst] at hk
+        split at hk
+        · cases hk
+        · obtain ⟨a, b⟩ := feedBody_hs hk
+          exact ⟨fun _ => a rfl, b⟩
+      | unconnected => simp only [hst] at hk; exact feedBody_hs hk
+      | token own => simp only [hst] at hk; exact feedBody_hs hk
+      | pendingConnect own => simp only [hst] at hk; exact feedBody_hs hk
+      | connecting own their => simp only [hst] at hk; exact feedBody_hs hk
+      | pending own their => simp only [hst] at hk; exact feedBody_hs hk
+      | disconnected => simp only [hst] at hk; exact feedBody_hs hk
+    unfold feed at hf
+    cases p with
+    | connless a b d =>
+      simp only at hf
+      split at hf
+      · exact hquiet _ rfl hf
+      · split at hf
+        · exact hquiet _ rfl hf
+        · exact hquiet _ rfl hf
+    | control ack tk ctl =>
+      simp only at hf
+      split at hf
+      · exact hquiet _ rfl hf
+      · exact hbody ack hf
+    | chunks ack tk rr n cs =>
+      simp only at hf
+      split at hf
+      · exact hquiet _ rfl hf
+      · exact hbody ack hf
+
+theorem hs7 : Hs proto7 late where
+  call := fun now draws c cl r hr => hs_call7 now draws c cl r hr
+  recv := fun now draws c p alt r hr => hs_recv7 now draws c p alt r hr
+
 end Tw.NetSim.P7
